@@ -19,7 +19,7 @@ def gen_spinlock(repo):
     import re
     for pat, what in need:
         if not re.search(pat, txt, re.S):
-            raise X.ExtractError(f'{rel}: structure changed ({what})')
+            raise X.ShapeChanged(f'{rel}: structure changed ({what})')
     out.append('end Otel.Gen\n')
     return '\n'.join(out)
 
@@ -33,11 +33,11 @@ def gen_ring(repo):
     # capacity_ = max_size + 1 ; full test head - tail >= capacity_ - 1
     m = re.search(r'capacity_\s*\{\s*max_size\s*\+\s*(\d+)\s*\}', txt)
     if not m:
-        raise X.ExtractError(f'{rel}: capacity_{{max_size + k}} not found')
+        raise X.ShapeChanged(f'{rel}: capacity_{{max_size + k}} not found')
     out.append(f'def ringCapacitySlack : Nat := {int(m.group(1))}\n')
     m = re.search(r'if\s*\(\s*head\s*-\s*tail\s*>=\s*capacity_\s*-\s*(\d+)\s*\)\s*\{\s*return\s+false\s*;', txt)
     if not m:
-        raise X.ExtractError(f'{rel}: full test `head - tail >= capacity_ - k` not found')
+        raise X.ShapeChanged(f'{rel}: full test `head - tail >= capacity_ - k` not found')
     out.append(f'def ringFullSlack : Nat := {int(m.group(1))}\n')
     out.append('end Otel.Gen\n')
     return '\n'.join(out)
